@@ -268,6 +268,25 @@ func (w *World) Apply(op Op) {
 			}
 			w.accept(r.UUID(), r, slot < 0)
 		}
+	case "fill":
+		// V objects with synthetic unique keys (collections larger than the key tables allow)
+		base := len(w.Ever)
+		objs := make([]sod.Object, 0, op.V)
+		recs := make([]*Rec, 0, op.V)
+		for i := 0; i < op.V; i++ {
+			r := NewRec(i%NV, 0)
+			r.K = fmt.Sprintf("F%04d", base+i)
+			r.N = int64(100000 + base + i)
+			objs = append(objs, r)
+			recs = append(recs, r)
+		}
+		if n, err := w.DB.InsertOrUpdateMany(objs...); err != nil || n != op.V {
+			w.fail("fill-err", fmt.Sprintf("a fill of %d objects returned (%d, %v)", op.V, n, err))
+			return
+		}
+		for _, r := range recs {
+			w.accept(r.UUID(), r, true)
+		}
 	case "ins2":
 		w.serial2++
 		o := &Wide2{A: op.V, K: fmt.Sprintf("k%d", w.serial2)}
